@@ -161,6 +161,7 @@ pub fn check(rep: &Report) {
 pub fn replay(path: &str) -> i32 {
     let Ok(s) = std::fs::read_to_string(path) else { return 2 };
     let v: serde_json::Value = serde_json::from_str(&s).unwrap();
+    if v.get("large_sst").is_some() { return crate::props::c02::replay(path); }
     let choices: Vec<u32> = v["choices"].as_array().unwrap().iter().map(|x| x.as_u64().unwrap() as u32).collect();
     let table: Vec<SstString> = v["table"].as_array().unwrap().iter().map(|e| SstString { text: e[0].as_str().unwrap().to_string(), runs: e[1].as_u64().unwrap() as usize, ext: e[2].as_array().unwrap().iter().map(|b| b.as_u64().unwrap() as u8).collect() }).collect();
     let mut outs = vec![];
